@@ -44,10 +44,20 @@ def drop_bench():
     _bench.clear()
 
 
+_wire = {"n": 0}
+
+
 def transpiled(instrs, debug=False):
+    """The NV subroutine for `instrs`; every other one is taken the way a node gets it: serialised and decoded with the NV flavour."""
+    from netqasm.lang.parsing import deserialize
     from netqasm.sdk.transpile import NVSubroutineTranspiler
     sub = codec.mk_subroutine("vanilla", [0, 10], 0, instrs)
-    return NVSubroutineTranspiler(sub, debug=debug).transpile()
+    out = NVSubroutineTranspiler(sub, debug=debug).transpile()
+    _wire["n"] += 1
+    if not debug and _wire["n"] % 2:
+        _wire["ctx"].count("executed_as_received_over_the_wire")
+        out = deserialize(bytes(out), flavour=codec.flavour_obj("nv"))
+    return out
 
 
 def no_vanilla_left(sub):
@@ -128,6 +138,7 @@ def _cmp(ctx, case, got_sv, want_sv, b, what):
 def run_case(ctx, case):
     from netqasm.runtime.settings import set_is_using_hardware
     kind = case["kind"]
+    _wire["ctx"] = ctx
     try:
         _run(ctx, case)
     except Exception:
